@@ -1,0 +1,67 @@
+//go:build verif
+
+/*
+SPDX-License-Identifier: Apache-2.0
+*/
+
+package presexch
+
+import (
+	"github.com/hyperledger/aries-framework-go/component/models/presexch/internal/requirementlogic"
+)
+
+// VerifReq mirrors requirementlogic.RequirementLogic (an internal package) for the verification harness.
+type VerifReq struct {
+	IDs    []string
+	Nested []*VerifReq
+	Count  int
+	Min    int
+	Max    int
+}
+
+func (r *VerifReq) logic() *requirementlogic.RequirementLogic {
+	out := &requirementlogic.RequirementLogic{
+		InputDescriptorIDs: r.IDs,
+		Count:              r.Count,
+		Min:                r.Min,
+		Max:                r.Max,
+	}
+
+	for _, n := range r.Nested {
+		out.Nested = append(out.Nested, n.logic())
+	}
+
+	return out
+}
+
+func verifReqOf(l *requirementlogic.RequirementLogic) *VerifReq {
+	out := &VerifReq{IDs: l.InputDescriptorIDs, Count: l.Count, Min: l.Min, Max: l.Max}
+
+	for _, n := range l.Nested {
+		out.Nested = append(out.Nested, verifReqOf(n))
+	}
+
+	return out
+}
+
+// VerifIsSatisfiedBy runs RequirementLogic.IsSatisfiedBy.
+func VerifIsSatisfiedBy(r *VerifReq, set []string) bool {
+	return r.logic().IsSatisfiedBy(requirementlogic.InitFromSlice(set))
+}
+
+// VerifIterator returns the Next function of the SolutionIterator CreateVP uses.
+func VerifIterator(r *VerifReq, descs []string) func(exclude []string) []string {
+	it := r.logic().Iterator(descs)
+
+	return it.Next
+}
+
+// VerifRequirementOf returns the requirement logic CreateVP builds for the definition (makeRequirement + toLogic).
+func VerifRequirementOf(pd *PresentationDefinition) (*VerifReq, error) {
+	req, err := makeRequirement(pd.SubmissionRequirements, pd.InputDescriptors)
+	if err != nil {
+		return nil, err
+	}
+
+	return verifReqOf(req.toLogic()), nil
+}
